@@ -24,9 +24,22 @@ theorem inv_of_eff {p : PS} (h : Inv p) {Y : Nat → Prop} {e' : EP} {g' : Ghost
     (s : Eff Y p.a e')
     (hba : ba' = p.ba ∨ ∃ m, p.ba = m :: ba' ∧ ∀ y, Msg.flow? m = some y → Y y)
     (hg : ∀ x, ¬ Y x → GhostAgree x p.a p.ga g') (hgf : GhostFresh e' g')
-    (hY : ∀ x, Y x → Phase x { p with a := e', ga := g', ba := ba' }) :
-    Inv { p with a := e', ga := g', ba := ba' } := by
-  refine ⟨Running.of_eff s h.runA, h.runB, s.slotFid h.sfA, h.sfB, ?_, ?_, hgf, h.ghB, ?_⟩
+    {lk' : List Nat} (hlk : ∀ x, ¬ Y x → x ∈ lk' → x ∈ p.linked)
+    (hY : ∀ x, Y x → PhaseL x { p with a := e', ga := g', ba := ba', linked := lk' }) :
+    Inv { p with a := e', ga := g', ba := ba', linked := lk' } := by
+  have hab : ∀ x, ¬ Y x → fl x (p.ab ++ e'.outq) = fl x (p.ab ++ p.a.outq) := by
+    intro x hx
+    obtain ⟨em, he, hm⟩ := s.outq
+    rw [he, fl_append, fl_append, fl_append]
+    rw [fl_other x em (fun m hm' y hy (hyx : y = x) => hx (hyx ▸ (hm m hm' y hy).1))]
+    simp
+  have hbaeq : ∀ x, ¬ Y x → fl x (ba' ++ p.b.outq) = fl x (p.ba ++ p.b.outq) := by
+    intro x hx
+    rcases hba with hba | ⟨m, hba, hm⟩
+    · rw [hba]
+    · rw [hba, List.cons_append, fl_cons, isFl_false_of (fun y hy (hyx : y = x) => hx (hyx ▸ hm y hy))]
+      simp
+  refine ⟨Running.of_eff s h.runA, h.runB, s.slotFid h.sfA, h.sfB, ?_, ?_, hgf, h.ghB, ?_, ?_⟩
   · exact h.nodup.sublist (List.Sublist.append s.rngSub (List.Sublist.refl _))
   · intro k hk
     apply h.nonzero k
@@ -36,25 +49,19 @@ theorem inv_of_eff {p : PS} (h : Inv p) {Y : Nat → Prop} {e' : EP} {g' : Ghost
     · exact Or.inr hk
   · intro x
     by_cases hx : Y x
-    · exact hY x hx
-    · refine Phase.congr (p := p) (ev_eq_of_eff s x hx (hg x hx)) rfl ?_ ?_ (h.phase x)
-      · obtain ⟨em, he, hm⟩ := s.outq
-        show fl x (p.ab ++ e'.outq) = fl x (p.ab ++ p.a.outq)
-        rw [he, fl_append, fl_append, fl_append]
-        rw [fl_other x em (fun m hm' y hy (hyx : y = x) => hx (hyx ▸ (hm m hm' y hy).1))]
-        simp
-      · show fl x (ba' ++ p.b.outq) = fl x (p.ba ++ p.b.outq)
-        rcases hba with hba | ⟨m, hba, hm⟩
-        · rw [hba]
-        · rw [hba, List.cons_append, fl_cons, isFl_false_of (fun y hy (hyx : y = x) => hx (hyx ▸ hm y hy))]
-          simp
+    · exact (hY x hx).1
+    · exact Phase.congr (p := p) (ev_eq_of_eff s x hx (hg x hx)) rfl (hab x hx) (hbaeq x hx) (h.phase x)
+  · intro x hxl
+    by_cases hx : Y x
+    · exact (hY x hx).2 hxl
+    · exact Linked.congr (p := p) (ev_eq_of_eff s x hx (hg x hx)) rfl (hab x hx) (hbaeq x hx) (h.live x (hlk x hx hxl))
 
 /-- The special case of a step that concerns no flow. -/
 theorem inv_of_silent {p : PS} (h : Inv p) {e' : EP} (s : Eff (fun _ => False) p.a e') :
     Inv { p with a := e' } := by
   have hgf : GhostFresh e' p.ga := fun k hk => h.ghA k (Nat.le_trans s.len hk)
-  exact inv_of_eff (g' := p.ga) (ba' := p.ba) h s (Or.inl rfl) (fun x _ => GhostAgree.refl x _ _) hgf
-    (fun x hx => absurd hx id)
+  exact inv_of_eff (g' := p.ga) (ba' := p.ba) (lk' := p.linked) h s (Or.inl rfl) (fun x _ => GhostAgree.refl x _ _) hgf
+    (fun _ _ hh => hh) (fun x hx => absurd hx id)
 
 /-! ### Actions that concern no flow -/
 
@@ -70,8 +77,8 @@ theorem inv_of_silent_g {p : PS} (h : Inv p) {e' : EP} (s : Eff (fun _ => False)
     (hw : g'.wlog = p.ga.wlog) (hr : g'.rlog = p.ga.rlog) (he : g'.eof = p.ga.eof) :
     Inv { p with a := e', ga := g' } := by
   have hgf : GhostFresh e' g' := fun k hk => by rw [hw, hr, he]; exact h.ghA k (Nat.le_trans s.len hk)
-  exact inv_of_eff (g' := g') (ba' := p.ba) h s (Or.inl rfl) (fun x _ k _ => by rw [hw, hr, he]; exact ⟨rfl, rfl, rfl⟩) hgf
-    (fun x hx => absurd hx id)
+  exact inv_of_eff (g' := g') (ba' := p.ba) (lk' := p.linked) h s (Or.inl rfl) (fun x _ k _ => by rw [hw, hr, he]; exact ⟨rfl, rfl, rfl⟩) hgf
+    (fun _ _ hh => hh) (fun x hx => absurd hx id)
 
 theorem inv_sendDgram {p : PS} (h : Inv p) (d : Dgram) :
     Inv { p with a := (appSendDgram p.a d).1,
@@ -99,11 +106,15 @@ theorem inv_runDone {p : PS} (h : Inv p) :
 theorem inv_xmit {p : PS} (h : Inv p) (m : Msg) (rest : List Msg) (hq : p.a.outq = m :: rest) :
     Inv { p with a := { p.a with outq := rest }, ab := p.ab ++ [m] } := by
   refine ⟨⟨h.runA.outClosed, h.runA.muxAlive, h.runA.dead, h.runA.rwndPos, h.runA.rwndU32⟩, h.runB,
-    h.sfA, h.sfB, h.nodup, h.nonzero, h.ghA, h.ghB, ?_⟩
-  intro x
-  refine Phase.congr (p := p) rfl rfl ?_ rfl (h.phase x)
-  show fl x ((p.ab ++ [m]) ++ rest) = fl x (p.ab ++ p.a.outq)
-  rw [hq]; simp
+    h.sfA, h.sfB, h.nodup, h.nonzero, h.ghA, h.ghB, ?_, ?_⟩
+  · intro x
+    refine Phase.congr (p := p) rfl rfl ?_ rfl (h.phase x)
+    show fl x ((p.ab ++ [m]) ++ rest) = fl x (p.ab ++ p.a.outq)
+    rw [hq]; simp
+  · intro x hx
+    refine Linked.congr (p := p) rfl rfl ?_ rfl (h.live x hx)
+    show fl x ((p.ab ++ [m]) ++ rest) = fl x (p.ab ++ p.a.outq)
+    rw [hq]; simp
 
 end Penguin.Pair
 
@@ -165,9 +176,11 @@ theorem inv_openRound {p : PS} (h : Inv p) (r : OpenReq) (hne : (openRound p.a r
     have hfree : lookup p.a.flows y = none := hfr.sa
     have s := openRound_eff p.a r y rest hq h0 hfree h.runA.outClosed
     have hgf : GhostFresh (openRound p.a r).1 p.ga := fun k hk => h.ghA k (Nat.le_trans s.len hk)
-    refine inv_of_eff (g' := p.ga) (ba' := p.ba) h s (Or.inl rfl) (fun x _ => GhostAgree.refl x _ _) hgf ?_
+    refine inv_of_eff (g' := p.ga) (ba' := p.ba) (lk' := p.linked) h s (Or.inl rfl) (fun x _ => GhostAgree.refl x _ _) hgf
+      (fun _ _ hh => hh) ?_
     intro x hx
     subst hx
+    refine ⟨?_, fun hxl => absurd (show x ∈ p.a.rng by rw [hq]; simp) (h.live x hxl).ra⟩
     by_cases hr : r.retriesLeft = 0
     · have s0 : Eff (fun _ => False) p.a (openRound p.a r).1 := by
         unfold openRound; rw [if_pos hr]
